@@ -211,18 +211,21 @@ def run_c19(prop, tier):
             runs = [(t, TOOL_ARGS[t] if not (t == "ovniemu" and name == "bd2") else ["-l", "-b"]) for t in tnames]
             if label.split(":")[0] in DEBUG_OPS:
                 runs.append(("ovniemu", ["-l", "-d"]))
+                # ovnisort prints its debug messages when OVNI_DEBUG is set
+                runs.append(("ovnisort", ["ENV:OVNI_DEBUG=1"]))
             runs += EXTRA_RUNS
             for (t, targs) in runs:
                 td = os.path.join(base, "w%d" % os.getpid())
                 write_files(td, files)      # ovnisort rewrites streams: fresh copy per tool
-                rc, out, err = emusrv.run_tool(tools[t], targs + [td], timeout=8,
-                                               env_extra={"ASAN_OPTIONS": "detect_leaks=0:abort_on_error=1:allocator_may_return_null=1"})
+                envx = {"ASAN_OPTIONS": "detect_leaks=0:abort_on_error=1:allocator_may_return_null=1"}
+                envx.update(a[4:].split("=", 1) for a in targs if a.startswith("ENV:"))
+                rargs = [a for a in targs if not a.startswith("ENV:")]
+                rc, out, err = emusrv.run_tool(tools[t], rargs + [td], timeout=8, env_extra=envx)
                 if rc == "timeout" and hangs.get(t, 0) < 2:
                     # a deterministic case that timed out is re-run alone with a much longer limit before it is called a hang
                     # (once this worker has confirmed two hangs of the tool that way, further 8 s timeouts are reported as they are)
                     write_files(td, files)
-                    rc, out, err = emusrv.run_tool(tools[t], targs + [td], timeout=(40 if tier == "quick" else 90),
-                                                   env_extra={"ASAN_OPTIONS": "detect_leaks=0:abort_on_error=1:allocator_may_return_null=1"})
+                    rc, out, err = emusrv.run_tool(tools[t], rargs + [td], timeout=(40 if tier == "quick" else 90), env_extra=envx)
                 if rc == "timeout":
                     hangs[t] = hangs.get(t, 0) + 1
                 san = ""
